@@ -27,7 +27,8 @@ Streams
      (request 714): the string must EQUAL the writer's output byte for byte. The Coq document machine (request 715:
      SpecXmlDoc.doc_parse + ns_ok + root tt in the TTML namespace) must accept every such output, count as many elements
      as expat, and agree with expat on damaged variants of it (second root, text outside the root, white space before
-     the declaration, missing end tag, undeclared tts prefix, no declaration, other quotes / standalone).
+     the declaration, missing end tag, undeclared tts prefix, no declaration, other quotes / standalone); and on 200
+     (3 000) generated, mostly malformed XML declarations (order, quotes, Eq, S, version / encoding / standalone values).
 Every R / D / H violation record carries the pickled caption set(s): `./check C07 --replay` re-runs it.
 """
 import re
@@ -557,6 +558,63 @@ def expat_accepts(text):
         return True, sum(1 for _ in root.iter())
     except ET.ParseError:
         return False, 0
+
+
+def rand_declaration_doc(rng):
+    """a document with a random, often malformed, XML declaration"""
+    def q(v):
+        c = rng.choice(['"', "'"])
+        return c + v + c
+    if rng.random() < 0.3:                  # a well-formed one, spelled freely
+        s = "<?xml" + rng.choice([" ", "\n", "  "]) + "version" + rng.choice(["=", " =", "= ", " = ", "\t=\n"]) + q(rng.choice(["1.0", "1.1", "1.23"]))
+        if rng.random() < 0.6:
+            s += rng.choice([" ", "\t"]) + "encoding" + rng.choice(["=", " = "]) + q(rng.choice(["utf-8", "UTF-8", "utf_8", "U.8-x"]))
+        if rng.random() < 0.4:
+            s += rng.choice([" ", "\n "]) + "standalone" + rng.choice(["=", " ="]) + q(rng.choice(["yes", "no"]))
+        return s + rng.choice(["", " ", "\n"]) + "?>" + rng.choice(["<a/>", "\n<a/>\n", " <a b='1'>x</a>"])
+    items = [("version", rng.choice(["1.0", "1.0", "1.0", "1.1", "1.", "2.0", "1.00", "1.0 ", "", " 1.0", "1,0"]))]
+    if rng.random() < 0.6:
+        items.append(("encoding", rng.choice(["utf-8", "UTF-8", "utf_8", "-utf8", "8utf", "utf 8", ""])))
+    if rng.random() < 0.4:
+        items.append(("standalone", rng.choice(["yes", "no", "maybe", "YES", ""])))
+    if rng.random() < 0.15:
+        rng.shuffle(items)
+    if rng.random() < 0.1:
+        items = items[1:]
+    if rng.random() < 0.08:
+        items.append(("version", "1.0"))
+    s = "<?xml"
+    for k, v in items:
+        s += rng.choice([" ", " ", "  ", "\n", ""] if rng.random() < 0.2 else [" "]) + k + rng.choice(["=", " =", "= ", " = ", "\t=\n"]) \
+            + (q(v) if rng.random() < 0.95 else '"' + v + "'")
+    s += rng.choice(["", "", " ", "\n"]) + rng.choice(["?>", "?>", "?>", "? >", ">", "?"])
+    return s + rng.choice(["<a/>", "\n<a/>\n"])
+
+
+def stream_declarations(ctx, acc):
+    """the XML declaration grammar of the spec (SpecXmlDoc.xml_decl) against expat"""
+    rng = ctx.rng
+    docs = [rand_declaration_doc(rng) for _ in range(ctx.n(200, 3000))]
+    for d, r in zip(docs, oracle_batch([(715, d) for d in docs])):
+        acc.res["evaluations"] += 1
+        try:
+            ET.fromstring(d.encode("utf-8"))
+            ok = True
+        except ET.ParseError:
+            ok = False
+        except LookupError:                 # well-formed, but an encoding name Python does not know
+            ok = True
+        spec = bool(r[0])
+        m = re.search(r"""version\s*=\s*["']([^"']*)["']""", d)
+        if ok == spec:
+            acc.count("K_declarations_%s_by_expat_and_by_the_spec" % ("accepted" if ok else "refused"))
+        elif ok and m and not re.fullmatch(r"1\.[0-9]+", m.group(1)):
+            acc.count("K_declaration_version_is_not_a_VersionNum(expat does not check production 26; the spec refuses)")
+        elif ok and not d[5:6].isspace():
+            acc.count("K_declaration_is_a_processing_instruction(no white space after <?xml; the spec knows no PIs)")
+        else:
+            acc.res["disagreements"].append({"stream": "K-declaration", "input": {"document": d}, "what": "XML declaration: expat %s, "
+                                             "SpecXmlDoc.doc_parse %s" % ("accepts" if ok else "refuses", "accepts" if spec else "refuses")})
 
 
 def stream_skeleton(ctx, acc, docs):
@@ -1311,6 +1369,7 @@ def run(ctx):
     kdocs = []
     stream_documents(ctx, acc, kdocs)
     stream_skeleton(ctx, acc, kdocs)
+    stream_declarations(ctx, acc)
     stream_histories(ctx, acc)
     res = acc.res
     res["streams"] = 6
